@@ -537,6 +537,45 @@ def file_histories(item):
     return {'histories': n, 'bad': bad}
 
 
+REG_TEXTS = ['d a u a', 'd b u b', 'd a d b u b', 'd c u a', 'd a u zz', 'd a d a u a', 'd b']
+
+
+def provider_history_scenario():
+    """concrete supplement (round 9, C16l): scope providers that keep per-load state — PlainName in its
+    parser-registry mode (multi_metamodel_support=False) and the default PlainName — under every history of
+    <= 2 loads out of REG_TEXTS (names defined by one load and referenced, dangling, by the next): every
+    probe text gives after the history what a fresh meta-model gives"""
+    import itertools
+    from textx import metamodel_from_str
+    from textx.scoping import providers as sp
+    g = render_grammar(grammar('objref')['rules'])
+
+    def mk(kind):
+        mm = metamodel_from_str(g)
+        if kind == 'registry':
+            mm.register_scope_providers({'*.*': sp.PlainName(multi_metamodel_support=False)})
+        elif kind == 'plain':
+            mm.register_scope_providers({'*.*': sp.PlainName()})
+        return mm
+    problems = []
+    for kind in ('registry', 'plain', 'default'):
+        fresh = {t: describe(mk(kind), t) for t in REG_TEXTS}
+        hists = [h for n in (1, 2) for h in itertools.product(REG_TEXTS, repeat=n)]
+        for h in hists:
+            mm = mk(kind)
+            for t in h:
+                describe(mm, t)
+            for t in REG_TEXTS:
+                got = describe(mm, t)
+                if not same(got, fresh[t]):
+                    problems.append('provider %s: after loading %r the input %r gives %s, a fresh meta-model gives %s'
+                                    % (kind, list(h), t, str(got)[:120], str(fresh[t])[:120]))
+                    break
+            if len(problems) >= 2:
+                return problems
+    return problems
+
+
 def main():
     import textx.model as M
     import textx.metamodel as MM
@@ -622,6 +661,11 @@ def main():
         for pr in getattr(extras7, fn_)()[:2]:
             chk.violation(pr, {'extras7': fn_})
         chk.cov['traces_validated_against_impl'] += 1
+    for pr in provider_history_scenario()[:2]:
+        chk.violation(pr, {'provider_history': True})
+    chk.cov['traces_validated_against_impl'] += 1
+    chk.cov.setdefault('bounds', {})['provider_histories'] = ('PlainName(multi_metamodel_support=False) / PlainName() / default: every '
+                                                             'history of <= 2 loads out of %d texts, every text probed afterwards; no solver dimension' % len(REG_TEXTS))
     chk.cov.setdefault('bounds', {})['concrete_supplements_round7'] = ['equal_root_models', 'primitive_root_with_user_classes']
     return chk.finish('one obligation per (scenario, input length, history): z3 query "some input distinguishes the live '
                       'parser model after the history from a fresh one"; non-trivial = histories of scenarios/lengths '
@@ -632,6 +676,9 @@ def replay(data):
     if isinstance(data, dict) and data.get('extras7'):
         from . import extras7
         pr = getattr(extras7, data['extras7'])()
+        return bool(pr), pr[:2]
+    if isinstance(data, dict) and data.get('provider_history'):
+        pr = provider_history_scenario()
         return bool(pr), pr[:2]
     if 'file_history' in data:
         r = file_history_side(data['provider'], data['global_repo'], data['file_history'])
